@@ -20,9 +20,9 @@ type Col struct {
 }
 
 type Row struct {
-	ID    uint32 // id observed in mkdb (0 = not yet observed)
-	Vals  []Val
-	Seq   int
+	ID   uint32 // id observed in mkdb (0 = not yet observed)
+	Vals []Val
+	Seq  int
 }
 
 type Table struct {
@@ -416,9 +416,9 @@ func operandVal(o *proto.Operand, lookup func(*proto.Operand) (Val, error)) (Val
 
 // ---------- helpers to build conditions ----------
 
-func ColOp(name string) *proto.Operand           { return &proto.Operand{Col: name} }
-func QColOp(q, name string) *proto.Operand       { return &proto.Operand{Qual: q, Col: name} }
-func LitOp(v Val) *proto.Operand                 { return &proto.Operand{Lit: &v} }
+func ColOp(name string) *proto.Operand               { return &proto.Operand{Col: name} }
+func QColOp(q, name string) *proto.Operand           { return &proto.Operand{Qual: q, Col: name} }
+func LitOp(v Val) *proto.Operand                     { return &proto.Operand{Lit: &v} }
 func Cmp(op string, l, r *proto.Operand) *proto.Cond { return &proto.Cond{Op: op, LHS: l, RHS: r} }
-func And(l, r *proto.Cond) *proto.Cond           { return &proto.Cond{Op: "and", L: l, R: r} }
-func Or(l, r *proto.Cond) *proto.Cond            { return &proto.Cond{Op: "or", L: l, R: r} }
+func And(l, r *proto.Cond) *proto.Cond               { return &proto.Cond{Op: "and", L: l, R: r} }
+func Or(l, r *proto.Cond) *proto.Cond                { return &proto.Cond{Op: "or", L: l, R: r} }
